@@ -372,7 +372,9 @@ theorem c_applySetting {st st' : State} {sm sm' : Bool} {p : Nat × Nat}
     (h : CInv T S (rview st)) (heq : applySetting st sm p = some (st', sm')) : CInv T S (rview st') := by
   unfold applySetting at heq
   split at heq
-  · cases heq; exact h
+  · split at heq
+    · cases heq
+    · cases heq; exact h
   · split at heq
     · cases heq; exact h
     · split at heq
